@@ -12,23 +12,31 @@ LEVEL = "exploration"
 LEVEL_TEXT = (
     "The accuracy clause is about SciPy's solve_bvp / solve_ivp on the radial problems the library poses; no theorem about "
     "this repository can carry it, so it is decided by exploration: Gaussian charge combinations inside the stated "
-    "resolution envelope (atomic grids, 2- and 3-centre molecular grids, off-centre Gaussians for l > 0, origin / "
-    "large-point / boundary options, robust solver with exact core, with residual, with the second split; initial-value "
-    "solver for spherical densities; linearity residuals) against the analytic potential sum c_i erf(sqrt(a_i)|r-R_i|)/|r-R_i|, "
-    "which C17 proves to be the Coulomb potential of the normalised s-type Gaussian. What is proved (Lean, over the reals, "
+    "resolution envelope (atomic grids, 2- and 3-centre molecular grids, off-centre Gaussians for l > 0 -- also with the centre exactly on a "
+    "radial shell --, origin / large-point / boundary options, robust solver with exact core, with residual, with the second split and a "
+    "non-default exponent basis; initial-value solver for spherical densities; linearity residuals) against the analytic potential "
+    "sum c_i erf(sqrt(a_i)|r-R_i|)/|r-R_i|, which C17 proves to be the Coulomb potential of the normalised s-type Gaussian; interpolate_laplacian "
+    "against the closed-form Laplacian of h_l(x) e^{-a x^2} (l = 0, 1, 2, off-centre) on atomic grids and, on molecular grids, against the sum of "
+    "the one-atom interpolants of w_A f; and by invariance scenarios (the answer is a function of the mathematical input only: reused tabulated "
+    "arrays, dicts, grid objects and callables in several orders, dtype / container kind of densities and points, every keyword with a default and "
+    "a non-default value, positional vs keyword calls, AtomGrid vs one-atom MolGrid, atom order, thresholds). What is proved (Lean, over the reals, "
     "about the text regenerated from poisson.py / robust_poisson.py on every run): the posed coefficient lists, right-hand "
     "sides, boundary and initial values; u = rV turns the boundary-value equation into the initial-value equation; the "
     "separated Laplacian with the eigenfunction hypothesis gives the posed radial equation; the boundary values are the "
     "monopole limit q/Y00 resp. 0; posed data are linear in the density and solutions superpose (linearity under "
-    "uniqueness, uniqueness proved for l = 0); robust total = core potential + potential of the residual, exact when the "
-    "density is the core model; the reference potential solves the posed l = 0 problem exactly. Tie to the code: translator "
-    "+ interception of every call the library makes into grid.ode (mesh, right-hand side, coefficients, boundary / initial "
-    "data, options) compared with the Lean model through the driver."
+    "uniqueness; uniqueness of the exact posed problem is proved for every l: l = 0 by integration, l >= 1 by the maximum principle); "
+    "the generated interpolate_laplacian (clamp, derivative orders 2/1/0, factors 2/r and 1/r^2, the degrees array l(l+1) x (2l+1) in the "
+    "solvers' (l, m) order, first + second - third) equals the sum over components of the separated Laplacian for r >= cutoff and its value at "
+    "r = cutoff below, and equals -4 pi sum rho_lm Y_lm when the components solve the posed radial problems; in the molecular fan-out the term "
+    "of atom i uses the grid and the slice of atom i (Python closure rules recorded by the translator); robust total = core potential + "
+    "potential of the residual, exact when the density is the core model; the reference potential solves the posed l = 0 problem exactly. "
+    "Tie to the code: translator + interception of every call the library makes into grid.ode (mesh, right-hand side, coefficients, boundary / "
+    "initial data, options) and evaluation of interpolate_laplacian on random atomic / molecular grids, compared with the Lean model through the driver."
 )
 TECHNIQUE = ("exploration against a Lean-proved analytic reference (C17) + Lean 4 / Mathlib reduction lemmas about the AST-regenerated "
              "posed problems + differential correspondence by intercepting the calls into grid.ode")
 GEN = ["poisson", "coulomb"]
-LEAN_MODULES = ["GridVerif.Props.C16"]
+LEAN_MODULES = ["GridVerif.Props.C16", "GridVerif.Props.C16.Laplacian"]
 THEOREMS = [
     "GridVerif.C16.posed_bvp_eq",
     "GridVerif.C16.posed_ivp_eq",
@@ -44,6 +52,7 @@ THEOREMS = [
     "GridVerif.C16.linear_combination_solves",
     "GridVerif.C16.linear_in_density",
     "GridVerif.C16.bvp_unique_monopole",
+    "GridVerif.C16.bvp_unique_higher",
     "GridVerif.C16.bvp_solution_example",
     "GridVerif.C16.robust_fold",
     "GridVerif.C16.core_term_is_c17_density",
@@ -54,6 +63,15 @@ THEOREMS = [
     "GridVerif.C16.s_reference",
     "GridVerif.C16.problems_count",
     "GridVerif.C16.call_shapes",
+    "GridVerif.C16.lap_gen_eq",
+    "GridVerif.C16.laplacianAt_eq",
+    "GridVerif.C16.laplacian_expansion",
+    "GridVerif.C16.lap_degrees_spec",
+    "GridVerif.C16.laplacian_expansion_code",
+    "GridVerif.C16.laplacian_of_potential",
+    "GridVerif.C16.lap_fanout_eq",
+    "GridVerif.C16.lap_molecular_slice_full",
+    "GridVerif.zero_of_second_deriv_eq_pos_mul",
 ]
 
 # ----------------------------------------------------------------------------------------------
@@ -61,6 +79,8 @@ THEOREMS = [
 # ----------------------------------------------------------------------------------------------
 ATOL_UNIT = 1e-2     # tests/test_poisson.py: assert_allclose(actual, desired, atol=1e-2) for a unit charge (bvp and ivp)
 LINEAR_ATOL_UNIT = 1e-4   # solve_bvp default tol 1e-6 on u = rV, evaluated at r >= 0.02: 1e-6 / 0.02 = 5e-5 per unit charge, rounded up
+LAP_RTOL = 5e-2          # interpolate_laplacian vs closed form, relative to (4l+6) a max|f|; observed <= 4.1e-3 over 60 grids x 4 shapes (spline second derivative)
+SANITY_ATOL_UNIT = 5e-2  # invariance scenario on a coarse molecular grid (outside the envelope): only a sanity check that the fresh reference is a potential
 EXACT_CORE_ATOL = 1e-6   # robust solver on its own core model: only the numerical solve of a zero residual remains (bvp tol 1e-6; observed 1e-10)
 
 RULE = (
@@ -87,25 +107,41 @@ RULE = (
     "with degree >= 9 the answer is destroyed by amplified rounding noise (listed finding poisson.solve_poisson_ivp:high-l, replayed on "
     "every run). Robust solver: H or C centre on G1, density = core "
     "model (+ 0..2 smooth Gaussians 0.4 <= a <= 3), split2 False/True. "
+    "interpolate_laplacian (atomic grids G1 / G2, f = h_l(x - c) e^{-a|x - c|^2}, h_l = 1, x, x^2 - y^2, or an s-Gaussian displaced by d <= 0.5; 150 points at distance "
+    "0.05 .. 3/sqrt(a), and 12 points inside a cutoff in 0.05..0.4 against the closed form at r = cutoff): max error <= 5e-2 * (4l+6) a max|f| "
+    "(observed <= 4.1e-3 over 60 grids x 4 shapes; the spline's second derivative limits it); molecular grids (2-3 atoms, atomic grids of equal and of different "
+    "sizes): |L_mol - sum_A L_A[(w_A f)|_A]| <= 1e-10 relative (observed 0), no closeness to the analytic Laplacian is asserted there (w_A f is not band-limited at "
+    "the grids' degree). Invariance scenarios (keys poisson:state:func_vals / :grid / :molgrid, poisson:options, poisson:dtype, poisson:extreme; grids "
+    "Trapezoidal(140..170) o LinearFiniteRTransform(1e-3, 18..24) degree 3/5 -- both solvers fast and accurate --, a coarse molecular G2 grid, G1 with degree 25 "
+    "(thorough: 35..53)): every answer on reused objects equals the answer on freshly built objects (same NumPy seed) to 1e-10, caller arrays / dicts unchanged "
+    "bit for bit, dtype / container variants within 1e-4 * Q of the float64 answer, a boundary value B + dB shifts the l = 0 answer by dB Y00 (r - lo)/((hi - lo) r) "
+    "to 1e-6 with hi = remove_large_pts = a radial point, int boundary / remove_large_pts / include_origin raise TypeError, MolGrid(store=False) raises ValueError, "
+    "and the fresh answers themselves are within 1e-2 * Q of the analytic potential (5e-2 on the coarse molecular grid). "
     "correspondence (the posed problems): every call the library makes to solve_ode_bvp / solve_ode_ivp is intercepted (harness "
     "process only) on random atomic / molecular grids (radial 6..25 points, degrees 3..13, with/without r = 0, options include_origin x "
     "remove_large_pts {None, inside the mesh, 1e6} x boundary {None, float}); mesh, number and order of problems, boundary "
     "conditions / initial data, coefficient functions and right-hand side at mesh and random radii (incl. r = 0), solver options, "
     "the back-substitution (u/r, mask at r = 0) and the sum over (l, m), the per-atom slices w_A rho and the sum over atoms, the "
-    "robust residual / core density / total are compared with the Lean model (driver). Non-trivial = a case with at least 4 radial "
+    "robust residual / core density / total are compared with the Lean model (driver); interpolate_laplacian(grid, f)(points, cutoff) on random atomic and 2-3-atom "
+    "molecular grids (equal / different atomic sizes, AtomGrid vs one-atom MolGrid route, store=False rejected) at random points, at a centre, inside / exactly at / just above "
+    "the cutoff, cutoffs {default, 1e-6, 1e-3, 0.5, 1e-8, 2^-10}, batch vs single point, caller's points unchanged: the model gets rho_lm, rho_lm', rho_lm'' from "
+    "radial_component_splines at the model's clamped radius and Y_lm from generate_real_spherical_harmonics, rtol 1e-12 of the largest term. Non-trivial = a case with at least 4 radial "
     "problems (l_max//2 >= 1) and a non-zero density"
 )
 TRUSTED_BASE = [
     "Lean 4.33 kernel, Mathlib; axioms propext, Classical.choice, Quot.sound only (audited per theorem)",
     "C17 (GridVerif.C17.s_solves_poisson, s_far, s_closed_form_is_coulomb_integral): erf(sqrt(a) r)/r is the Coulomb potential of (a/pi)^{3/2} e^{-a r^2}",
-    "translator harness/translate/poisson.py (AST fragments -> scalar Lean definitions); validated at Float against the intercepted callables on every run",
-    "hand model Model/Poisson.lean (mesh options, (l,m) sequence, sums, slices, robust folds), tied by correspondence",
+    "translator harness/translate/poisson.py (AST fragments -> scalar Lean definitions, incl. interpolate_laplacian: clamp, derivative orders, einsum shapes, degrees "
+    "comprehension, closure binding of the per-atom lambda); validated at Float against the intercepted callables / the real interpolate_laplacian on every run",
+    "hand model Model/Poisson.lean (mesh options, (l,m) sequence, sums, slices, robust folds, the three contractions of laplacianAt), tied by correspondence",
     "the separated form of the Laplacian in spherical coordinates and the eigenfunction property of Y_lm are definitions / named hypotheses, not theorems",
     "scipy.special.erf as the numerical value of the reference; SciPy solve_bvp / solve_ivp, CubicSpline, nnls are exercised, not modelled",
 ]
 ASSUMPTIONS = [
     "the accuracy clause is an exploration result inside the stated envelope, not a theorem; thresholds are the ones the library's tests assert",
-    "linearity of the numerical answer is checked as a residual; the theorem needs uniqueness of the solver's answer (proved for the exact l = 0 problem only)",
+    "linearity of the numerical answer is checked as a residual; the theorem needs uniqueness of the solver's answer (proved for the exact posed problem of every l: bvp_unique_monopole, bvp_unique_higher; an assumption for the numerical solver)",
+    "the invariance scenarios fix NumPy's global seed before every solve (solve_ode_bvp draws its initial guess from it); without that two solves of the same input differ by ~1e-13",
+    "points closer than ~1e-15 to an atomic centre are indistinguishable from r = 0 in the transformed radial variable; the boundary-value interpolant returns 0 there (documented u(0) = 0 assumption): only finiteness is asserted below 1e-7",
     "radial_component_splines, atomgrid.integrate, generate_real_spherical_harmonics and coulomb_potential enter the correspondence as inputs (C05/C08/C09/C17 are their properties)",
     "IEEE rounding not modelled: equality over the reals in the lemmas, rtol 1e-12 in the correspondence",
     "type checks of the options (TypeError) and shape validation are outside the model",
@@ -204,16 +240,72 @@ def run(spec):
             core += [(ck, ak, c) for ck, ak in zip(table[sym]['coeffs_s'], table[sym]['alphas_s'])]
         g = core + [tuple(x) for x in spec['gauss']]
         rho = _rho(mg.points, g)      # tabulated once; a caller keeps using this array
+        ab = None if spec.get('alphas_basis') is None else np.array(spec['alphas_basis'])
         V = solve_poisson_robust(mg, rho, inv, np.array(spec['atnums']), np.array(centers),
-                                 split2=spec.get('split2', False), **kw)
+                                 split2=spec.get('split2', False), alphas_basis=ab, **kw)
         err = float(np.max(np.abs(V(pts) - _ref(pts, g))))
         # the same tabulated density solved again (other split option): must still be the potential of rho
         V2 = solve_poisson_robust(mg, rho, inv, np.array(spec['atnums']), np.array(centers),
-                                  split2=not spec.get('split2', False), **kw)
+                                  split2=not spec.get('split2', False), alphas_basis=ab, **kw)
         err = max(err, float(np.max(np.abs(V2(pts) - _ref(pts, g)))))
         if not spec['gauss']:
             return err, spec['exact_core_atol'], 'robust solver on its own core model vs analytic core potential'
         return err, spec['atol_unit'] * sum(abs(c) for c, _, _ in g), 'robust solver vs analytic potential'
+    if kind == 'laplacian':
+        # f = h_l(x - c) exp(-a |x - c|^2), h_l a solid harmonic of degree l:  Laplacian f = h_l (4 a^2 d^2 - (4 l + 6) a) exp(-a d^2)
+        from grid.poisson import interpolate_laplacian
+        a, shape = spec['a'], spec['shape']
+        c = np.asarray(spec['center'], dtype=float)
+        l, h = {'s': (0, lambda q: np.ones(len(q))), 'off': (0, lambda q: np.ones(len(q))), 'p': (1, lambda q: q[:, 0]),
+                'd': (2, lambda q: q[:, 0] ** 2 - q[:, 1] ** 2)}[shape]
+        f = lambda p: h(p - c) * np.exp(-a * np.sum((p - c) ** 2, axis=1))
+        lap = lambda p: h(p - c) * (4 * a * a * np.sum((p - c) ** 2, axis=1) - (4 * l + 6) * a) * np.exp(-a * np.sum((p - c) ** 2, axis=1))
+        scale = (4 * l + 6) * a * [1.0, 1.0 / np.sqrt(2 * a), 1.0 / a][l]
+        rng = np.random.default_rng(spec['pseed'])
+        k = spec.get('npts', 150)
+        p = rng.normal(size=(k, 3))
+        p /= np.linalg.norm(p, axis=1)[:, None]
+        ctr = np.asarray(centers)[rng.integers(0, len(centers), size=k)]
+        p = ctr + p * np.exp(rng.uniform(np.log(0.05), np.log(3.0 / np.sqrt(a)), size=k))[:, None]
+        vals = f(mg.points)
+        L = interpolate_laplacian(mg, vals)
+        err = float(np.max(np.abs(L(p) - lap(p)))) / scale
+        err = max(err, float(np.max(np.abs(L(p[::-1].copy(), 1e-6) - lap(p[::-1])))) / scale)      # again, explicit default cutoff, reversed order
+        # documented clamp: a point closer to the atom than `cutoff` is evaluated at radius `cutoff` (same direction)
+        if len(centers) == 1 and spec.get('cut'):
+            cut = spec['cut']
+            u = rng.normal(size=(12, 3))
+            u /= np.linalg.norm(u, axis=1)[:, None]
+            t = np.array([0.5, 1e-3, 0.999, 0.1, 1.0, 1e-6] * 2)
+            inside, on = centers[0] + u * (t * cut)[:, None], centers[0] + u * cut
+            err = max(err, float(np.max(np.abs(L(inside, cut) - lap(on)))) / scale)
+        return err, spec['lap_rtol'], 'interpolate_laplacian vs closed form (and points inside the cutoff vs the closed form at r = cutoff), max error / ((4l+6) a max|f|)'
+    if kind == 'laplacian-mol':
+        # structural clause: the molecular Laplacian is the sum over atoms A of the one-atom Laplacian interpolants of
+        # (w_A f) restricted to the points of atom A, each built here from atom A's own grid and slice
+        from grid.poisson import interpolate_laplacian
+        ags = [AtomGrid(radial, degrees=[d], center=c) for d, c in zip(spec['degs'], centers)]
+        mol = MolGrid(np.array([1] * len(centers)), ags, BeckeWeights(order=3), store=True)
+        f = _rho(mol.points, spec['gauss'])
+        snap = f.copy()
+        L = interpolate_laplacian(mol, f)
+        rng = np.random.default_rng(spec['pseed'])
+        k = spec.get('npts', 60)
+        p = rng.normal(size=(k, 3))
+        p /= np.linalg.norm(p, axis=1)[:, None]
+        p = np.asarray(centers)[rng.integers(0, len(centers), size=k)] + p * np.exp(rng.uniform(np.log(1e-3), np.log(3.0), size=k))[:, None]
+        p[0] = centers[0]
+        fw = snap * mol.aim_weights
+        worst = 0.0
+        for cut in spec.get('cuts', [None, 1e-3]):
+            got = L(p) if cut is None else L(p, cut)
+            parts = [interpolate_laplacian(AtomGrid(radial, degrees=[d], center=c), fw[mol.indices[i]:mol.indices[i + 1]].copy())(p, 1e-6 if cut is None else cut)
+                     for i, (d, c) in enumerate(zip(spec['degs'], centers))]
+            scale = np.maximum(1.0, np.sum(np.abs(parts), axis=0))
+            worst = max(worst, float(np.max(np.abs(got - np.sum(parts, axis=0)) / scale)))
+        if not np.array_equal(f, snap):
+            worst = float('inf')
+        return worst, 1e-10, 'molecular interpolate_laplacian vs sum over atoms of the one-atom interpolants of w_A f on atom A\'s grid and slice (relative)'
     raise ValueError(kind)
 '''
 _ns: dict = {}
@@ -225,6 +317,383 @@ def _snippet(spec) -> str:
     return (RUN_SRC + f"\nspec = json.loads({json.dumps(json.dumps(spec))})\n"
             "obs, thr, what = run(spec)\n"
             "assert obs <= thr, f'{what}: {obs:.3e} > {thr:.3e}'\n")
+
+
+# ----------------------------------------------------------------------------------------------
+# invariance scenarios (state between calls, object identity, dtype / container, options, order, thresholds):
+# the answer is a function of the mathematical input only.  Self-contained source (replay snippets).
+# ----------------------------------------------------------------------------------------------
+INV_SRC = RUN_SRC + r'''
+# (body of INV_SRC; appended to RUN_SRC)  -- invariance scenarios: the answer is a function of the inputs only
+class _Inv:
+    def __init__(self, spec):
+        from grid.poisson import solve_poisson_bvp, solve_poisson_ivp, interpolate_laplacian
+        from grid.robust_poisson import solve_poisson_robust
+        self.bvp, self.ivp, self.robust, self.lap = solve_poisson_bvp, solve_poisson_ivp, solve_poisson_robust, interpolate_laplacian
+        self.spec, self.out = spec, []
+        self.radial, self.tf, self.inv, self.AtomGrid = _grid_parts(spec['grid'])
+        self.rmax, self.rmin = float(np.max(self.radial.points)), float(np.min(self.radial.points))
+        self.rng = np.random.default_rng(spec['seed'])
+        self.Q = 1.0
+
+    def grid(self, center=(0.0, 0.0, 0.0), deg=None, radial=None):
+        return self.AtomGrid(radial if radial is not None else self.radial, degrees=[deg or self.spec['grid']['deg']], center=np.array(center, dtype=float))
+
+    def mol(self, centers, deg=None, store=True):
+        from grid.molgrid import MolGrid
+        from grid.becke import BeckeWeights
+        return MolGrid(np.array([1] * len(centers)), [self.grid(c, deg) for c in centers], BeckeWeights(order=3), store=store)
+
+    def chk(self, label, obs, thr):
+        self.out.append((label, float(obs), float(thr)))
+
+    def same(self, label, a, b, rtol=1e-10):
+        a, b = np.asarray(a, dtype=float), np.asarray(b, dtype=float)
+        if a.shape != b.shape or not np.all(np.isfinite(a)):
+            self.chk(label + ' [shape/finite]', 1.0, 0.0)
+        else:
+            self.chk(label, np.max(np.abs(a - b)) if a.size else 0.0, rtol * max(1.0, float(np.max(np.abs(b))) if b.size else 1.0))
+
+    def unchanged(self, label, arr, snap):
+        self.chk(label + ' [caller array modified]', 0.0 if (np.array_equal(np.asarray(arr), snap) and np.asarray(arr).dtype == snap.dtype) else 1.0, 0.5)
+
+    def raises(self, label, exc, fn):
+        try:
+            fn()
+            got = 'no exception'
+        except exc:
+            got = None
+        except Exception as e:
+            got = type(e).__name__
+        self.chk(label + (' [%s]' % got if got else ''), 0.0 if got is None else 1.0, 0.5)
+
+    def solve(self, kind, g, rho, **kw):
+        np.random.seed(7)      # solve_ode_bvp draws its initial guess from the global state: same seed, same answer
+        if kind == 'bvp':
+            kw.setdefault('remove_large_pts', 10.0)
+            return self.bvp(g, rho, self.inv, **kw)
+        if kind == 'ivp':
+            kw.setdefault('r_interval', (self.rmax, self.rmin))
+            return self.ivp(g, rho, self.inv, **kw)
+        if kind == 'robust':
+            kw.setdefault('remove_large_pts', 10.0)
+            return self.robust(g, rho, self.inv, np.array(self.spec.get('atnums', [1])), np.array(self.spec.get('atoms', [[0.0, 0.0, 0.0]]), dtype=float), **kw)
+        raise ValueError(kind)
+
+    def points(self, centers, k=40, rlo=0.05):
+        return _points({'pseed': int(self.rng.integers(10**6)), 'npts': k, 'rlo': rlo}, [np.asarray(c, dtype=float) for c in centers], min(self.rmax, 10.0))
+
+
+def _core(sym, center):
+    import grid
+    with open(grid.__path__[0] + '/data/atomic_gauss_params.json') as f:
+        table = json.load(f)
+    return [(ck, ak, list(center)) for ck, ak in zip(table[sym]['coeffs_s'], table[sym]['alphas_s'])]
+
+
+def inv_funcvals(I):
+    """one tabulated array reused across solvers in different orders; linear combinations reuse rho1, rho2"""
+    sp = I.spec
+    Z = [0.0, 0.0, 0.0]
+    g = I.grid(Z)
+    g1, g2 = _core('H', Z) + [tuple(x) for x in sp['gauss']], [tuple(x) for x in sp['gauss2']]
+    a, b = sp['a'], sp['b']
+    r1, r2 = _rho(g.points, g1), _rho(g.points, g2)
+    r12 = a * r1 + b * r2
+    snaps = [r1.copy(), r2.copy(), r12.copy()]
+    pts = I.points([Z])
+    psnap = pts.copy()
+    fresh = {}
+
+    def F(kind, which):           # fresh grid, fresh array
+        if (kind, which) not in fresh:
+            fresh[(kind, which)] = I.solve(kind, I.grid(Z), snaps[which].copy())(pts.copy())
+        return fresh[(kind, which)]
+
+    arrs = [r1, r2, r12]
+    seq = [('robust', 0), ('bvp', 0), ('ivp', 0), ('robust', 0), ('bvp', 1), ('bvp', 2), ('ivp', 2), ('bvp', 0), ('robust', 0)]
+    if sp.get('perm'):
+        seq = [seq[i] for i in sp['perm']]
+    got = {}
+    for step, (kind, which) in enumerate(seq):
+        v = I.solve(kind, g, arrs[which])(pts)
+        for w in range(3):
+            I.unchanged(f'step {step} {kind}(rho{w + 1}): rho{w + 1}', arrs[w], snaps[w])
+        I.unchanged(f'step {step} {kind}: points', pts, psnap)
+        I.same(f'step {step}: {kind} on the reused array/grid vs fresh array and grid', v, F(kind, which))
+        got[(kind, which)] = v
+    gl = [g1, g2, [(a * c, al, R) for c, al, R in g1] + [(b * c, al, R) for c, al, R in g2]]
+    q = [sum(abs(c) for c, _, _ in x) for x in gl]
+    for (kind, which), v in got.items():
+        if True:
+            I.chk(f'{kind}(rho{which + 1}) vs analytic potential', np.max(np.abs(v - _ref(pts, gl[which]))), sp['atol_unit'] * q[which])
+    I.chk('linearity on the reused arrays', np.max(np.abs(got[('bvp', 2)] - a * got[('bvp', 0)] - b * got[('bvp', 1)])),
+          sp['linear_atol_unit'] * (q[2] + abs(a) * q[0] + abs(b) * q[1]))
+
+
+def inv_params(I):
+    """the same ode_params dict reused; non-default tol / max_nodes / method; keyword vs positional"""
+    sp = I.spec
+    Z = [0.0, 0.0, 0.0]
+    g = I.grid(Z)
+    gs = [tuple(x) for x in sp['gauss']]
+    rho = _rho(g.points, gs)
+    q = sum(abs(c) for c, _, _ in gs)
+    pts = I.points([Z])
+    ref = _ref(pts, gs)
+    for kind, d in (('bvp', dict(sp['bvp_params'])), ('ivp', dict(sp['ivp_params']))):
+        items = list(d.items())
+        v1 = I.solve(kind, g, rho, ode_params=d)(pts)
+        I.chk(f'{kind}: caller ode_params after the first call [{list(d.items())!r}]', 0.0 if list(d.items()) == items else 1.0, 0.5)
+        v2 = I.solve(kind, g, rho, ode_params=d)(pts)
+        I.chk(f'{kind}: caller ode_params after the second call [{list(d.items())!r}]', 0.0 if list(d.items()) == items else 1.0, 0.5)
+        v3 = I.solve(kind, I.grid(Z), rho.copy(), ode_params=dict(items))(pts)
+        I.same(f'{kind}: second call with the same dict object vs first', v2, v1)
+        I.same(f'{kind}: reused dict vs fresh dict', v1, v3)
+        I.chk(f'{kind}: ode_params={dict(items)!r} vs analytic potential', np.max(np.abs(v1 - ref)), sp['atol_unit'] * q)
+        vd = I.solve(kind, g, rho)(pts)            # defaults after a call with non-default options
+        vdf = I.solve(kind, I.grid(Z), rho.copy(), ode_params=None)(pts)
+        I.same(f'{kind}: default options after a call with explicit options vs fresh', vd, vdf)
+        if kind == 'bvp' and d.get('tol', 1e-6) != 1e-6:
+            I.chk('bvp: a different tol gives a (slightly) different answer -- the option is used', 0.0 if np.max(np.abs(v1 - vd)) > 0 else 1.0, 0.5)
+    # positional vs keyword
+    B = float(g.integrate(rho) * 2.0 * np.sqrt(np.pi))
+    np.random.seed(7)
+    vp = I.bvp(g, rho, I.inv, B, True, 10.0, None)(pts)
+    vk = I.solve('bvp', g, rho, boundary=B, include_origin=True, remove_large_pts=10.0, ode_params=None)(pts)
+    I.same('bvp: positional vs keyword arguments', vp, vk)
+    I.same('bvp: boundary = integral / Y00 given explicitly vs default', vk, I.solve('bvp', g, rho)(pts), rtol=1e-11)
+    np.random.seed(7)
+    vp = I.ivp(g, rho, I.inv, (I.rmax, I.rmin), None)(pts)
+    I.same('ivp: positional vs keyword arguments', vp, vdf)
+    # a wrong boundary value shifts the l = 0 answer by (B' - B) Y00 u_h(r)/r, u_h the solution of u'' = 0, u(lo) = 0, u(hi) = 1
+    dB = sp['dB']
+    # remove_large_pts exactly equal to a radial point: "removes any points larger than", so that point stays the upper end
+    allp = np.sort(I.radial.points)
+    rl = float(allp[np.argmin(np.abs(allp - 10.0))])
+    for io in (True, False):
+        mesh = allp[allp <= rl]
+        lo, hi = (0.0 if io else float(mesh[0])), float(mesh[-1])
+        v0 = I.solve('bvp', g, rho, boundary=B, include_origin=io, remove_large_pts=rl)(pts)
+        v1 = I.solve('bvp', g, rho, boundary=B + dB, include_origin=io, remove_large_pts=rl)(pts)
+        r = np.linalg.norm(pts, axis=1)
+        sel = (r > lo) & (r < hi)
+        shift = dB / (2.0 * np.sqrt(np.pi)) * (r - lo) / (hi - lo) / r
+        I.chk(f'bvp: boundary + {dB} shifts the potential by dB*Y00*(r-lo)/((hi-lo) r), hi = remove_large_pts = radial point {rl!r}, include_origin={io}',
+              np.max(np.abs((v1 - v0 - shift)[sel])), 1e-6 * (abs(dB) + 2 * q))
+    for bad in (1, np.int64(2)):
+        I.raises(f'bvp: boundary={bad!r} ({type(bad).__name__})', TypeError, lambda: I.solve('bvp', g, rho, boundary=bad))
+    I.raises('bvp: remove_large_pts=10 (int)', TypeError, lambda: I.solve('bvp', g, rho, remove_large_pts=10))
+    I.raises('bvp: include_origin=1 (int)', TypeError, lambda: I.solve('bvp', g, rho, include_origin=1))
+    vf = I.solve('bvp', g, rho, boundary=B, remove_large_pts=10.0)(pts)
+    I.same('bvp: boundary / remove_large_pts as np.float64 vs float', I.solve('bvp', g, rho, boundary=np.float64(B), remove_large_pts=np.float64(10.0))(pts), vf)
+    vt = I.solve('ivp', g, rho)(pts)
+    for ri in ([I.rmax, I.rmin], np.array([I.rmax, I.rmin])):
+        I.same(f'ivp: r_interval as {type(ri).__name__} vs tuple', I.solve('ivp', g, rho, r_interval=ri)(pts), vt)
+    I.raises('ivp: r_interval increasing', ValueError, lambda: I.solve('ivp', g, rho, r_interval=(I.rmin, I.rmax)))
+
+
+def _inv_grid_common(I, label, mk, centers, kinds, opts, with_other_size):
+    sp = I.spec
+    ga, gb = [tuple(x) for x in sp['gauss']], [tuple(x) for x in sp['gauss2']]
+    g = mk()
+    gA = [(c, al, centers[0]) for c, al, _ in ga]
+    gB = [(c, al, centers[-1]) for c, al, _ in gb]
+    rA, rB = _rho(g.points, gA), _rho(g.points, gB)
+    sA, sB = rA.copy(), rB.copy()
+    pts, pts2 = I.points(centers), I.points(centers, k=7)
+    fresh = {}
+    for kind in kinds:
+        o = opts if kind == 'bvp' else {}
+        VA = I.solve(kind, g, rA, **o)
+        I.unchanged(f'{label} {kind}: func_vals after the solve', rA, sA)
+        a1 = VA(pts)
+        go = mk(sp['other_deg'])                               # same radial size, other degree
+        I.solve(kind, go, _rho(go.points, gB), **o)(pts2)
+        if with_other_size:
+            r2, _, _, _ = _grid_parts({**sp['grid'], 'n': sp['grid']['n'] + sp['dn']})
+            gs_ = mk(None, r2)                                  # same degree, other radial size
+            I.solve(kind, gs_, _rho(gs_.points, gB), **o)(pts2)
+        VB = I.solve(kind, g, rB, **o)
+        b1 = VB(pts)
+        VA2 = I.solve(kind, g, rA, **o)
+        I.unchanged(f'{label} {kind}: first func_vals after three solves', rA, sA)
+        I.unchanged(f'{label} {kind}: second func_vals after its solve', rB, sB)
+        fa = I.solve(kind, mk(), sA.copy(), **o)(pts)
+        fb = I.solve(kind, mk(), sB.copy(), **o)(pts)
+        fresh[kind] = fa
+        I.same(f'{label} {kind}: first solve on the grid object vs fresh grid', a1, fa)
+        I.same(f'{label} {kind}: second density on the same grid object (other grids solved in between) vs fresh grid', b1, fb)
+        I.same(f'{label} {kind}: first density again on the same grid object vs fresh grid', VA2(pts), fa)
+        # callables: interleaved, repeated, other point sets in between
+        VA(pts); VB(pts2); x2 = VA(pts2); x3 = VB(pts); x4 = VA(pts)
+        I.same(f'{label} {kind}: callable evaluated again after other evaluations', x4, a1)
+        I.same(f'{label} {kind}: callable of the second solve evaluated after the first one', x3, b1)
+        I.same(f'{label} {kind}: callable on a second point set vs one point at a time', x2, np.array([VA(pts2[j:j + 1])[0] for j in range(len(pts2))]), rtol=1e-12)
+        I.chk(f'{label} {kind}: vs analytic potential', np.max(np.abs(a1 - _ref(pts, gA))), sp['atol_unit'] * sum(abs(c) for c, _, _ in gA))
+        I.chk(f'{label} {kind}: second density on the same grid object vs analytic potential', np.max(np.abs(b1 - _ref(pts, gB))), sp['atol_unit'] * sum(abs(c) for c, _, _ in gB))
+    return g, sA.copy(), gA, pts, pts2, fresh
+
+
+def inv_grid(I):
+    """one AtomGrid object solved several times, another grid (other degree / other size) in between; callables keep no state;
+    AtomGrid vs the equivalent one-atom MolGrid"""
+    Z = [0.0, 0.0, 0.0]
+    mk = lambda d=None, radial=None: I.grid(Z, d, radial)
+    g, rA, gA, pts, pts2, fresh = _inv_grid_common(I, 'AtomGrid', mk, [Z], ('bvp', 'ivp'), {}, True)
+    m1 = I.mol([Z])
+    I.same('AtomGrid vs one-atom MolGrid (bvp)', I.solve('bvp', m1, rA.copy())(pts), fresh['bvp'], rtol=1e-9)
+    I.same('AtomGrid vs one-atom MolGrid (ivp)', I.solve('ivp', m1, rA.copy())(pts), fresh['ivp'], rtol=1e-9)
+    Lm, La = I.lap(m1, rA.copy()), I.lap(mk(), rA.copy())
+    l1 = La(pts)
+    I.same('AtomGrid vs one-atom MolGrid (interpolate_laplacian)', Lm(pts), l1, rtol=1e-9)
+    La(pts2, 0.3)
+    I.lap(mk(I.spec['other_deg']), np.ones(mk(I.spec['other_deg']).size))(pts2)
+    I.same('interpolate_laplacian: callable evaluated again (other points, cutoff and grid in between)', La(pts), l1)
+    I.same('interpolate_laplacian: default cut_off vs 1e-6 given', La(pts, 1e-6), l1)
+
+
+def inv_mol(I):
+    """one MolGrid object solved several times; store=False rejected; atoms in another order"""
+    sp = I.spec
+    centers = sp['atoms2']
+    opts = {'include_origin': False}
+    mk = lambda d=None, radial=None: I.mol(centers, d)
+    g, rA, gA, pts, pts2, fresh = _inv_grid_common(I, 'MolGrid', mk, centers, ('bvp',), opts, False)
+    I.raises('bvp: MolGrid(store=False)', ValueError, lambda: I.solve('bvp', I.mol(centers, store=False), rA, **opts))
+    I.raises('ivp: MolGrid(store=False)', ValueError, lambda: I.ivp(I.mol(centers, store=False), rA, I.inv, r_interval=(10.0, 0.01)))
+    I.raises('interpolate_laplacian: MolGrid(store=False)', ValueError, lambda: I.lap(I.mol(centers, store=False), rA))
+    I.raises('robust: MolGrid(store=False)', ValueError, lambda: I.robust(I.mol(centers, store=False), rA, I.inv, np.array([1] * len(centers)), np.array(centers, dtype=float), remove_large_pts=10.0, include_origin=False))
+    rev = [list(c) for c in centers[::-1]]
+    gr = I.mol(rev)
+    vr = I.solve('bvp', gr, _rho(gr.points, gA), **opts)(pts)
+    I.chk('MolGrid bvp: atoms listed in reversed order give the same potential', np.max(np.abs(vr - fresh['bvp'])), sp['linear_atol_unit'] * 3 * sum(abs(c) for c, _, _ in gA))
+
+
+def inv_dtype(I):
+    """container kind / dtype of func_vals and of the evaluation points"""
+    sp = I.spec
+    Z = [0.0, 0.0, 0.0]
+    g = I.grid(Z)
+    gs = _core('H', Z) + [tuple(x) for x in sp['gauss']]
+    q = sum(abs(c) for c, _, _ in gs)
+    rho = np.round(_rho(g.points, gs) * 2.0 ** 14) / 2.0 ** 14     # multiples of 2^-14 below 2^3: exact in float32
+    assert np.array_equal(rho.astype(np.float32).astype(np.float64), rho)
+    pts = np.round(I.points([Z]) * 256.0) / 256.0                  # exact in float32
+    pts = pts[np.linalg.norm(pts, axis=1) > 0.04]
+    tol = sp['linear_atol_unit'] * q
+    big = np.zeros(2 * len(rho)); big[::2] = rho
+    ro = rho.copy(); ro.setflags(write=False)
+    variants = {'float32': rho.astype(np.float32), 'read-only': ro, 'non-contiguous view big[::2]': big[::2], 'list': [float(x) for x in rho],
+                'float64 Fortran-ordered copy': np.asfortranarray(rho), 'longdouble': rho.astype(np.longdouble)}
+    for kind in ('bvp', 'ivp', 'robust', 'lap'):
+        def run(arr, p=pts):
+            if kind == 'lap':
+                return I.lap(I.grid(Z), arr)(p)
+            return I.solve(kind, I.grid(Z), arr)(p)
+        ref = run(rho.copy())
+        if kind != 'lap':
+            I.chk(f'{kind}: float64 reference vs analytic potential (density rounded to 2^-14)', np.max(np.abs(ref - _ref(pts, gs))), sp['atol_unit'] * q)
+        sc = tol if kind != 'lap' else 1e-6 * max(1.0, float(np.max(np.abs(ref))))
+        for name, arr in variants.items():
+            if kind == 'ivp' and name not in ('float32', 'read-only', 'list'):
+                continue
+            snap = np.array(arr, copy=True) if not isinstance(arr, list) else None
+            try:
+                v = run(arr)
+            except TypeError:
+                if name == 'list':
+                    continue             # a clean rejection of a Python list is acceptable
+                I.chk(f'{kind}: func_vals as {name} raised TypeError', 1.0, 0.5)
+                continue
+            except Exception as e:
+                I.chk(f'{kind}: func_vals as {name} raised {type(e).__name__}: {str(e)[:80]}', 1.0, 0.5)
+                continue
+            I.chk(f'{kind}: func_vals as {name} vs float64 array', np.max(np.abs(np.asarray(v, dtype=float) - ref)), sc)
+            if snap is not None:
+                I.unchanged(f'{kind}: func_vals as {name}', arr, snap)
+        # integer-valued density
+        ri = np.round(rho * 8.0)
+        try:
+            vi = run(ri.astype(np.int64))
+            I.chk(f'{kind}: integer-valued density as int64 vs float64', np.max(np.abs(vi - run(ri.copy()))), sc * 8)
+        except Exception as e:
+            I.chk(f'{kind}: integer-valued density as int64 raised {type(e).__name__}: {str(e)[:80]}', 1.0, 0.5)
+        # evaluation points
+        V = (lambda p: I.lap(I.grid(Z), rho.copy())(p)) if kind == 'lap' else I.solve(kind, I.grid(Z), rho.copy())
+        bigp = np.zeros((2 * len(pts), 3)); bigp[::2] = pts
+        rp = pts.copy(); rp.setflags(write=False)
+        for name, p in {'float32': pts.astype(np.float32), 'read-only': rp, 'non-contiguous': bigp[::2], 'Fortran-ordered': np.asfortranarray(pts), 'int64 (integer coordinates)': None}.items():
+            if p is None:
+                p = np.array([[1, 0, 0], [0, -2, 1], [3, 1, -1]], dtype=np.int64)
+                want = V(p.astype(float))
+            else:
+                want = ref
+            snap = np.array(p, copy=True)
+            try:
+                v = V(p)
+            except Exception as e:
+                I.chk(f'{kind}: points as {name} raised {type(e).__name__}: {str(e)[:80]}', 1.0, 0.5)
+                continue
+            I.chk(f'{kind}: points as {name} vs float64', np.max(np.abs(np.asarray(v, dtype=float) - want)), sc)
+            I.unchanged(f'{kind}: points as {name}', p, snap)
+        one = V(pts[3:4])
+        I.chk(f'{kind}: a single point of shape (1, 3)', abs(float(one[0]) - ref[3]) if np.shape(one) == (1,) else 1.0, sc)
+        perm = I.rng.permutation(len(pts))
+        idx = np.concatenate([perm, perm[:5], perm[::-1]])
+        I.same(f'{kind}: points shuffled / repeated / reversed give the same values point by point', V(pts[idx]), ref[idx], rtol=1e-11)
+
+
+def inv_extreme(I):
+    """thresholds and end points"""
+    sp = I.spec
+    Z = [0.0, 0.0, 0.0]
+    g = I.grid(Z)
+    gs = [tuple(x) for x in sp['gauss']]
+    q = sum(abs(c) for c, _, _ in gs)
+    rho = _rho(g.points, gs)
+    d = np.array(sp['dir'], dtype=float)
+    d /= np.linalg.norm(d)
+    mesh = np.sort(I.radial.points)
+    rl = sp['remove_large_pts']
+    r_last = float(mesh[mesh <= rl][-1]) if rl is not None else float(mesh[-1])
+    for io in (True, False):
+        V = I.solve('bvp', g, rho, include_origin=io, remove_large_pts=rl)
+        lo = 0.0 if io else float(mesh[0])
+        radii = [1e-7, 1e-5, 1e-3, float(mesh[1]), float(mesh[len(mesh) // 2]), 0.999999 * r_last, r_last] if io else [0.5, float(mesh[len(mesh) // 2]), 0.999999 * r_last, r_last]
+        pts = np.array([r * d for r in radii])
+        I.chk(f'bvp include_origin={io} remove_large_pts={rl}: radii {radii} (next to 0, on radial shells, next to / at the last mesh point) vs analytic',
+              np.max(np.abs(V(pts) - _ref(pts, gs))), sp['atol_unit'] * q)
+        v0 = V(np.array([[0.0, 0.0, 0.0], 1e-301 * d, 1e-299 * d, 1e-200 * d]))
+        I.chk(f'bvp include_origin={io}: finite values at r = 0, 1e-301, 1e-299, 1e-200 [{v0!r}]', 0.0 if np.all(np.isfinite(v0)) else 1.0, 0.5)
+    # a radial grid that already contains r = 0: include_origin must not add a second origin; both settings pose the same problem
+    r0, tf0, inv0, AG = _grid_parts(sp['grid0'])
+    g0 = AG(r0, degrees=[sp['grid0']['deg']], center=np.zeros(3))
+    rho0 = _rho(g0.points, gs[:1])
+    p0 = _points({'pseed': sp['seed'], 'npts': 30}, [np.zeros(3)], 10.0)
+    vs = []
+    for io in (True, False):
+        np.random.seed(7)
+        vs.append(I.bvp(g0, rho0, inv0, include_origin=io, remove_large_pts=10.0)(p0))
+        I.chk(f'bvp on a radial grid with a point at r = 0, include_origin={io} vs analytic', np.max(np.abs(vs[-1] - _ref(p0, gs[:1]))), sp['atol_unit'] * abs(gs[0][0]))
+    I.same('bvp on a radial grid with a point at r = 0: include_origin True vs False', vs[0], vs[1])
+
+
+def inv_run(spec):
+    """-> list of (label, observed, threshold); a check fails iff not observed <= threshold"""
+    I = _Inv(spec)
+    {'funcvals': inv_funcvals, 'params': inv_params, 'grid': inv_grid, 'mol': inv_mol, 'dtype': inv_dtype, 'extreme': inv_extreme}[spec['scenario']](I)
+    return I.out
+'''
+_ns_inv: dict = {}
+exec(INV_SRC, _ns_inv)
+_inv_run = _ns_inv["inv_run"]
+
+
+def _inv_snippet(spec, label) -> str:
+    return (INV_SRC + f"\nspec = json.loads({json.dumps(json.dumps(spec))})\n"
+            f"bad = [(l, o, t) for l, o, t in inv_run(spec) if l == {label!r} and not (o <= t)]\n"
+            "assert not bad, bad\n")
 
 
 # ----------------------------------------------------------------------------------------------
@@ -637,6 +1106,188 @@ def corr(ctx: Ctx):
                 ctx.fail("corr", key + ":total", f"total_potential = {float(tot[j])}, model v_core + v_bonding + v_residual = {m}",
                          witness={"impl": float(tot[j]), "model": m, "v_core_parts": [float(p[j]) for p in pots], "v_bonding": float(vb[j]), "v_residual": float(vr[j])})
 
+    _corr_laplacian(ctx)
+
+
+# ----------------------------------------------------------------------------------------------
+# interpolate_laplacian: correspondence with the generated model (laplacianAt, lapTermSlices, lapSum)
+# ----------------------------------------------------------------------------------------------
+def _lap_model(ctx, grids, vals, weights, indices, pts, cutoff):
+    """Model value of interpolate_laplacian(...)(pts, cutoff): splines / harmonics are obtained independently from the
+    atomic grids (inputs of the model), everything else comes from the driver.
+    -> ("ok", values, scales) | ("value-error", why)"""
+    utils = importlib.import_module("grid.utils")
+    tag, t = _tok(driver_batch([f"C16.lapslices {fvec(vals)} {fvec(weights)} {vec([int(i) for i in indices])}"])[0])
+    if tag != "ok":
+        return ("model-" + tag, None, None)
+    nterm = t.nat()
+    terms = []
+    for _ in range(nterm):
+        gi = t.nat()
+        terms.append((gi, np.array(t.fvec(), dtype=float)))
+    scales = np.zeros(len(pts))
+    prep = []
+    for gi, sl in terms:
+        g = grids[gi]
+        if len(sl) != g.size:
+            return ("value-error", f"term of atom {gi}: slice of length {len(sl)} on an atomic grid of {g.size} points", None)
+        lmax = int(g.l_max)
+        splines = g.radial_component_splines(sl)
+        sph = g.convert_cartesian_to_spherical(np.array(pts, dtype=float, copy=True))
+        ylm = utils.generate_real_spherical_harmonics(lmax // 2, sph[:, 1], sph[:, 2])
+        prep.append((lmax, splines, sph, ylm))
+    clamp = driver_batch([f"C16.lapclamp {f2b(r)} {f2b(cutoff)}" for (_, _, sph, _) in prep for r in sph[:, 0]])
+    lines = []
+    for a, (lmax, splines, sph, ylm) in enumerate(prep):
+        degs = np.array([l * (l + 1) for l in range(lmax // 2 + 1) for _ in range(2 * l + 1)], dtype=float)
+        for j in range(len(pts)):
+            rc = _tok(clamp[a * len(pts) + j])[1].flt()
+            rho = [float(sp(rc)) for sp in splines]
+            rho1 = [float(sp(rc, 1)) for sp in splines]
+            rho2 = [float(sp(rc, 2)) for sp in splines]
+            lines.append(f"C16.lap {lmax} {f2b(sph[j, 0])} {f2b(cutoff)} {fvec(rho)} {fvec(rho1)} {fvec(rho2)} {fvec(ylm[:, j])}")
+            y = np.abs(ylm[:, j])
+            scales[j] += float(np.sum(np.abs(rho2) * y) + 2.0 / rc * np.sum(np.abs(rho1) * y) + np.sum(np.abs(rho) * degs * y) / rc ** 2)
+    flat = []
+    for a in driver_batch(lines):
+        tg, tt = _tok(a)
+        if tg != "ok":
+            return ("model-" + tg, None, None)
+        flat.append(tt.flt())
+    per_atom = [flat[a * len(pts):(a + 1) * len(pts)] for a in range(len(prep))]
+    tot = []
+    for j, a in enumerate(driver_batch([f"C16.lapsum {fvec([pa[j] for pa in per_atom])}" for j in range(len(pts))])):
+        tg, tt = _tok(a)
+        if tg != "ok":
+            return ("model-" + tg, None, None)
+        tot.append(tt.flt())
+        scales[j] += sum(abs(pa[j]) for pa in per_atom)
+    return ("ok", np.array(tot), scales)
+
+
+def _lap_points(ctx, centers, cutoff):
+    """Evaluation points: generic ones, at an atomic centre, with r < cutoff, r == cutoff (exactly, for a centre with exactly
+    representable offsets), just above the cutoff."""
+    c = np.asarray(ctx.rng.choice(centers), dtype=float)
+    d = np.array([ctx.rng.gauss(0, 1) for _ in range(3)])
+    d /= np.linalg.norm(d)
+    pts = [c + np.array([ctx.rng.gauss(0, 1) for _ in range(3)]) * 10 ** ctx.rng.uniform(-2, 0.4) for _ in range(3)]
+    pts += [c.copy(), c + d * cutoff * ctx.rng.uniform(0.01, 0.9), c + np.array([cutoff, 0.0, 0.0]), c + np.array([0.0, 0.0, -cutoff]),
+            c + d * cutoff * 1.0000001, c + d * 1e-9]
+    ctx.rng.shuffle(pts)
+    return np.array(pts)
+
+
+def _corr_laplacian(ctx: Ctx):
+    import inspect
+
+    P = importlib.import_module("grid.poisson")
+    ag = importlib.import_module("grid.atomgrid")
+    mgm = importlib.import_module("grid.molgrid")
+    becke = importlib.import_module("grid.becke")
+    tag, t = _tok(driver_batch(["C16.lapconsts"])[0])
+    cut_in, cut_out, need_store = t.flt(), t.flt(), bool(t.nat())
+    orders = [t.nat(), t.nat(), t.nat()]
+    key0 = "poisson.interpolate_laplacian"
+    # the generated degrees array against its specification
+    for lmax in (0, 1, 2, 3, 7, 11, 13, ctx.rng.randrange(0, 60)):
+        tag, t = _tok(driver_batch([f"C16.lapdeg {lmax}"])[0])
+        n = t.nat()
+        md = [int(t.tok()) for _ in range(n)]
+        want = [l * (l + 1) for l in range(lmax // 2 + 1) for _ in range(2 * l + 1)]
+        ctx.count(["lap", "degrees", lmax], nontrivial=lmax >= 2, tag="lap:degrees")
+        if md != want:
+            ctx.fail("corr", key0 + ":degrees", f"generated degrees array for l_max={lmax} is not l(l+1) repeated 2l+1 times", witness={"l_max": lmax, "model": md[:12], "want": want[:12]})
+    ncase = ctx.n(10, 120)
+    for case in range(ncase):
+        natom = ctx.rng.choice([1, 1, 2, 3]) if case >= 3 else (1, 2, 3)[case]
+        centers = [np.zeros(3)] if natom == 1 and ctx.rng.random() < 0.4 else [np.array([ctx.rng.uniform(-1.0, 1.0) for _ in range(3)]) + 2.0 * k for k in range(natom)]
+        g0, tf, inv = _small_grid(ctx, center=centers[0])
+        mixed = natom > 1 and ctx.rng.random() < 0.2
+        grids = [g0]
+        for c in centers[1:]:
+            if mixed:
+                grids.append(ag.AtomGrid(g0.rgrid, degrees=[ctx.rng.choice([d for d in (3, 5, 7, 9) if d != int(g0.l_max)])], center=c))
+            else:
+                grids.append(ag.AtomGrid(g0.rgrid, degrees=[int(d) for d in g0.degrees], center=c))
+        route = "atomgrid"
+        if natom == 1 and ctx.rng.random() < 0.5:
+            mg = grids[0]
+            weights, indices = np.ones(mg.size), np.array([0, mg.size])
+        else:
+            route = "molgrid"
+            mg = mgm.MolGrid(np.array([1] * natom), grids, becke.BeckeWeights(order=3), store=True)
+            weights, indices = mg.aim_weights, mg.indices
+        vals = _density(ctx, mg.points, centers)
+        key = key0 + (":atomic" if natom == 1 else ":molecular")
+        snap = vals.copy()
+        try:
+            L = P.interpolate_laplacian(mg, vals)
+        except Exception as e:
+            ctx.fail("corr", key + ":raise", f"interpolate_laplacian raised {type(e).__name__} on a valid grid (store=True)", witness={"natom": natom, "err": str(e)[:200]})
+            continue
+        if case < 3:
+            d = inspect.signature(L).parameters
+            ctx.count(["lap", "defaults"], nontrivial=False, tag="lap:defaults")
+            if list(d) != ["points", "cut_off"] or d["cut_off"].default != cut_out:
+                ctx.fail("corr", key0 + ":defaults", "signature / default cut_off of the returned callable differs from the generated one",
+                         witness={"impl": str(inspect.signature(L)), "model": cut_out})
+        for cutoff in [None, cut_out, ctx.rng.choice([1e-3, 0.5, 1e-8, 2.0 ** -10])]:
+            cval = cut_out if cutoff is None else cutoff
+            pts = _lap_points(ctx, centers, cval)
+            psnap = pts.copy()
+            try:
+                with np.errstate(all="ignore"):
+                    got = L(pts) if cutoff is None else (L(pts, cutoff) if ctx.rng.random() < 0.5 else L(pts, cut_off=cutoff))
+                impl = "ok"
+            except ValueError as e:
+                impl, got = "value-error", str(e)[:160]
+            if not np.array_equal(pts, psnap):
+                ctx.fail("corr", key + ":points-modified", "the returned callable wrote into the caller's `points` (the clamp of r_pts reached the argument)",
+                         witness={"cutoff": cval, "before": psnap[:3], "after": pts[:3]})
+                pts = psnap.copy()
+            mtag, model, scales = _lap_model(ctx, grids, vals, weights, indices, pts, cval)
+            ctx.count(["lap", natom, case, repr(cutoff)], nontrivial=int(g0.l_max) // 2 >= 1, tag=f"lap:natom={natom}:{route}:{'mixed-sizes:' if mixed else ''}{mtag}")
+            if mtag != impl:
+                ctx.fail("corr", key + ":raise", f"implementation {impl} ({got if impl != 'ok' else ''}), model {mtag} ({model if mtag != 'ok' else ''})",
+                         witness={"natom": natom, "sizes": [g.size for g in grids], "cutoff": cval})
+                continue
+            if impl != "ok":
+                continue
+            for j in range(len(pts)):
+                r = float(np.min([np.linalg.norm(pts[j] - c) for c in centers]))
+                ctx.count(["lap", "value", case, j, repr(cutoff)], nontrivial=int(g0.l_max) // 2 >= 1,
+                          tag="lap:value:" + ("r=0" if r == 0.0 else "r<cutoff" if r < cval else "r=cutoff" if r == cval else "r>cutoff"))
+                if not _feq(got[j], model[j], rtol=1e-12, scale=float(scales[j])):
+                    ctx.fail("corr", key + ":value", f"interpolate_laplacian(...)(point, cutoff={cval}) at distance {r} from the nearest centre: implementation "
+                             f"{float(got[j])}, model {float(model[j])} (largest term {float(scales[j]):.3e})",
+                             witness={"natom": natom, "route": route, "point": pts[j], "centers": centers, "cutoff": cval, "r": r, "impl": float(got[j]), "model": float(model[j]),
+                                      "scale": float(scales[j]), "l_max": int(g0.l_max)})
+            # one point at a time (no state, no dependence on the other points of the batch -- np.any in the clamp)
+            for j in ([0, len(pts) - 1] + [ctx.rng.randrange(len(pts))]):
+                with np.errstate(all="ignore"):
+                    one = L(pts[j:j + 1].copy(), cval)
+                ctx.count(["lap", "single", case, j, repr(cutoff)], nontrivial=True, tag="lap:single-point")
+                if one.shape != (1,) or not _feq(one[0], got[j], rtol=1e-12, scale=float(scales[j])):
+                    ctx.fail("corr", key + ":batch", f"point {j} evaluated alone gives {float(one[0])}, in the batch {float(got[j])}",
+                             witness={"point": pts[j], "cutoff": cval, "alone": float(one[0]), "batch": float(got[j])})
+        if not np.array_equal(vals, snap):
+            ctx.fail("corr", key + ":func_vals-modified", "interpolate_laplacian changed the caller's func_vals")
+    # store=False must be rejected
+    g0, tf, inv = _small_grid(ctx, center=np.zeros(3))
+    g1 = ag.AtomGrid(g0.rgrid, degrees=[int(g0.l_max)], center=np.array([0.0, 0.0, 2.0]))
+    mg = mgm.MolGrid(np.array([1, 1]), [g0, g1], becke.BeckeWeights(order=3), store=False)
+    ctx.count(["lap", "store=False"], nontrivial=False, tag="lap:store=False")
+    try:
+        P.interpolate_laplacian(mg, np.ones(mg.size))
+        got = "ok"
+    except ValueError:
+        got = "value-error"
+    except Exception as e:
+        got = type(e).__name__
+    if got != ("value-error" if need_store else "ok"):
+        ctx.fail("corr", key0 + ":store", f"MolGrid(store=False): implementation {got}, generated guard says {'ValueError' if need_store else 'accepted'}")
+
 
 # ----------------------------------------------------------------------------------------------
 # oracle: the decision
@@ -681,7 +1332,7 @@ def _cases(ctx: Ctx, budget: str):
     """-> list of (key, spec)"""
     big = ctx.thorough or budget == "large"
     cases = []
-    base = {"atol_unit": ATOL_UNIT, "exact_core_atol": EXACT_CORE_ATOL, "linear_atol_unit": LINEAR_ATOL_UNIT}
+    base = {"atol_unit": ATOL_UNIT, "exact_core_atol": EXACT_CORE_ATOL, "linear_atol_unit": LINEAR_ATOL_UNIT, "lap_rtol": LAP_RTOL}
 
     def add(key, **spec):
         spec = {**base, **spec, "pseed": ctx.rng.randrange(10**6), "npseed": ctx.rng.randrange(10**6)}
@@ -699,6 +1350,33 @@ def _cases(ctx: Ctx, budget: str):
         # l > 0: off-centre Gaussians on an atomic grid
         add("poisson.solve_poisson_bvp:atomic-offcentre", kind="bvp", grid=_g2(ctx), atoms=[Z], gauss=_offcentre(ctx, Z),
             options={"include_origin": False, "remove_large_pts": round(ctx.rng.uniform(10, 25), 2)})
+        # l > 0 with the centre of the Gaussian exactly on a radial shell of the grid
+        gsh = _g2(ctx)
+        shells = np.sort(_ns["_grid_parts"](gsh)[0].points)
+        a_sh = _alpha(ctx, 0.4, 4.0)
+        cand = [float(x) for x in shells if 0.1 <= x <= min(0.5, 2.0 / a_sh)]
+        axis = ctx.rng.randrange(3)
+        add("poisson.solve_poisson_bvp:atomic-offcentre", kind="bvp", grid=gsh, atoms=[Z],
+            gauss=[(round(ctx.rng.uniform(0.4, 1.5), 3), a_sh, [ctx.rng.choice(cand) * (i == axis) * ctx.rng.choice([1, -1]) for i in range(3)])],
+            options={"include_origin": False, "remove_large_pts": round(ctx.rng.uniform(10, 25), 2)})
+        # Laplacian of the harmonic expansion vs closed forms (atomic grids)
+        for shape in ("s", "p", "d", "off"):
+            c = [round(ctx.rng.uniform(-1, 1), 3) for _ in range(3)]
+            a_l = _alpha(ctx)
+            cc = c
+            if shape == "off":
+                v = np.array([ctx.rng.gauss(0, 1) for _ in range(3)])
+                v *= min(0.5, 2.0 / a_l) * ctx.rng.uniform(0.3, 1.0) / np.linalg.norm(v)
+                cc = [round(float(x), 4) for x in (np.asarray(c) + v)]
+            add("poisson.interpolate_laplacian:atomic", kind="laplacian", grid=ctx.rng.choice([_g1, _g2])(ctx), atoms=[c], center=cc, shape=shape, a=a_l,
+                cut=round(ctx.rng.uniform(0.05, 0.4), 3), options={})
+        # molecular Laplacian: structural clause (sum over atoms of one-atom interpolants), atomic grids of equal / different sizes
+        for natom in (2, 3):
+            at = _molecule(ctx, natom)
+            add("poisson.interpolate_laplacian:molecular", kind="laplacian-mol", grid={**_g2(ctx), "n": ctx.rng.randrange(30, 61)}, atoms=at,
+                degs=[ctx.rng.choice([5, 7, 9, 11]) for _ in range(natom)],
+                gauss=[(round(ctx.rng.uniform(0.4, 1.2), 3), _alpha(ctx, 0.5, 3.0), ctx.rng.choice(at)) for _ in range(2)],
+                cuts=[None, ctx.rng.choice([1e-3, 0.3, 1e-8])], options={})
         # molecular
         for natom in (2, 3):
             at = _molecule(ctx, natom)
@@ -721,10 +1399,16 @@ def _cases(ctx: Ctx, budget: str):
         add("robust_poisson.solve_poisson_robust:residual", kind="robust", grid=_g1(ctx, deg=11), atoms=[Z], symbols=["H"], atnums=[1],
             gauss=[(round(ctx.rng.uniform(0.3, 1.0), 3), _alpha(ctx, 0.4, 3.0), Z)], split2=False, options={"remove_large_pts": 10.0})
         add("robust_poisson.solve_poisson_robust:split2", kind="robust", grid=_g1(ctx, deg=11), atoms=[Z], symbols=["H"], atnums=[1],
-            gauss=[(round(ctx.rng.uniform(0.3, 1.0), 3), _alpha(ctx, 0.4, 3.0), Z)], split2=True, options={"remove_large_pts": 10.0})
+            gauss=[(round(ctx.rng.uniform(0.3, 1.0), 3), _alpha(ctx, 0.4, 3.0), Z)], split2=True,
+            alphas_basis=ctx.rng.choice([None, [round(float(x), 6) for x in np.geomspace(0.1, 200.0, 8)], [0.3, 1.0, 3.0, 9.0, 27.0]]),
+            options=ctx.rng.choice([{"remove_large_pts": 10.0}, {"remove_large_pts": 10.0, "include_origin": True}, {"remove_large_pts": 12.5, "ode_params": {"tol": 1e-7}}]))
     # replay of the listed finding (deterministic input): rounding-size l >= 3 components blown up by the inward integration
     cases.append(("poisson.solve_poisson_ivp:high-l", {**base, "kind": "ivp", "grid": {"oned": "GaussLegendre", "n": 80, "tf": "Becke", "rmin": 0.01, "R": 1.5, "deg": 11},
                                                         "atoms": [Z], "gauss": [(1.0, 0.3, Z)], "rlo": 0.05, "pseed": 1, "npseed": 0}))
+    # the repaired molecular Laplacian (/repo 4a94e3f), deterministic input: equal and different atomic grid sizes
+    for degs in ([11, 11], [11, 7]):
+        cases.append(("poisson.interpolate_laplacian:molecular", {**base, "kind": "laplacian-mol", "grid": {"oned": "GaussLegendre", "n": 60, "tf": "Becke", "rmin": 1e-4, "R": 1.5, "deg": 11},
+                                                                  "atoms": [Z, [1.5, 0.0, 0.0]], "degs": degs, "gauss": [(1.0, 0.8, Z)], "options": {}, "pseed": 1, "npseed": 0}))
     if big:
         # origin in the mesh with a non-zero l >= 1 component (slow: ~30 s each)
         for _ in range(2):
@@ -733,9 +1417,122 @@ def _cases(ctx: Ctx, budget: str):
     return cases
 
 
+GI = {"oned": "Trapezoidal", "n": 150, "tf": "Linear", "rmin": 1e-3, "R": 20.0, "deg": 3}            # both solvers are fast and accurate here (tests' kind of ivp grid)
+GM = {"oned": "Trapezoidal", "n": 40, "tf": "Becke", "rmin": 1e-6, "R": 1.5, "trim": True, "deg": 7}   # coarse molecular grid
+
+
+def _inv_cases(ctx: Ctx, budget: str, only=None):
+    """-> list of (key, spec) of invariance scenarios (AGENT_ROUND2 classes 1-6)"""
+    big = ctx.thorough or budget == "large"
+    Z = [0.0, 0.0, 0.0]
+    base = {"atol_unit": ATOL_UNIT, "linear_atol_unit": LINEAR_ATOL_UNIT}
+    out = []
+
+    def al(lo=0.4, hi=2.0):
+        return _alpha(ctx, lo, hi)
+
+    def gi():
+        return {**GI, "n": ctx.rng.randrange(140, 171), "R": round(ctx.rng.uniform(18, 24), 2), "deg": ctx.rng.choice([3, 5])}
+
+    for rep in range(4 if big else 1):
+        seq = list(range(9))
+        if rep:
+            ctx.rng.shuffle(seq)
+        out.append(("poisson:state:func_vals", {**base, "scenario": "funcvals", "grid": gi(), "gauss": [(round(ctx.rng.uniform(0.3, 1.0), 3), al(), Z)],
+                                                 "gauss2": [(round(ctx.rng.uniform(0.5, 1.5), 3), al(), Z), (round(-ctx.rng.uniform(0.2, 0.6), 3), al(), Z)],
+                                                 "a": round(ctx.rng.uniform(0.5, 2), 3), "b": round(-ctx.rng.uniform(0.3, 1.5), 3), "atnums": [1], "atoms": [Z], "perm": seq if rep else None}))
+        out.append(("poisson:options", {**base, "scenario": "params", "grid": gi(), "gauss": [(1.0, al(), Z), (round(ctx.rng.uniform(0.2, 0.8), 3), al(), Z)],
+                                        "bvp_params": ctx.rng.choice([{"tol": 1e-8, "max_nodes": 20000}, {"max_nodes": 60000, "tol": 1e-7}, {"tol": 1e-5}]),
+                                        "ivp_params": ctx.rng.choice([{"rtol": 1e-9, "method": "RK45"}, {"method": "LSODA"}, {"atol": 1e-9, "rtol": 1e-7}]),
+                                        "dB": round(ctx.rng.choice([-1, 1]) * ctx.rng.uniform(0.3, 2.0), 3)}))
+        g = gi()
+        out.append(("poisson:state:grid", {**base, "scenario": "grid", "grid": g, "gauss": [(1.0, al(), Z)], "gauss2": [(round(ctx.rng.uniform(0.4, 1.2), 3), al(), Z)],
+                                           "other_deg": 5 if g["deg"] == 3 else 3, "dn": ctx.rng.choice([-9, 7, 13])}))
+        d = round(ctx.rng.uniform(1.6, 2.4), 3)
+        out.append(("poisson:state:molgrid", {**base, "atol_unit": SANITY_ATOL_UNIT, "scenario": "mol", "grid": {**GM, "n": ctx.rng.randrange(40, 51), "deg": ctx.rng.choice([7, 9])},
+                                              "gauss": [(1.0, al(0.6, 1.5), Z)], "gauss2": [(round(ctx.rng.uniform(0.4, 1.2), 3), al(0.6, 1.5), Z)], "other_deg": 5,
+                                              "atoms2": [Z, [d, 0.0, 0.0]] + ([[0.3 * d, 0.85 * d, 0.2]] if big and rep % 2 else [])}))
+        out.append(("poisson:dtype", {**base, "scenario": "dtype", "grid": gi(), "gauss": [(round(ctx.rng.uniform(0.3, 1.0), 3), al(), Z)], "atnums": [1], "atoms": [Z]}))
+        deg = ctx.rng.choice([35, 41, 53]) if big else 25
+        out.append(("poisson:extreme", {**base, "scenario": "extreme", "grid": {"oned": "GaussLegendre", "n": ctx.rng.randrange(70, 101), "tf": "Becke", "rmin": 1e-5, "R": round(ctx.rng.uniform(1.0, 2.0), 3), "deg": deg},
+                                        "gauss": [(1.0, 0.4, Z), (round(ctx.rng.uniform(0.3, 1.0), 3), 6.0, Z)], "dir": [round(ctx.rng.gauss(0, 1), 3) for _ in range(2)] + [1.0],
+                                        "remove_large_pts": ctx.rng.choice([10.0, 1e6, None, round(ctx.rng.uniform(10, 25), 2)]),
+                                        "grid0": {"oned": "Trapezoidal", "n": ctx.rng.randrange(50, 81), "tf": "Becke", "rmin": 0.0, "R": round(ctx.rng.uniform(1.0, 2.0), 3), "trim": True, "deg": 5}}))
+    for _, sp in out:
+        sp["seed"] = ctx.rng.randrange(10**6)
+    return [(k, sp) for k, sp in out if only is None or sp["scenario"] in only]
+
+
+def _run_inv_cases(ctx: Ctx, cases, obs):
+    for key, spec in cases:
+        t0 = time.time()
+        try:
+            res = _inv_run(spec)
+        except Exception as e:
+            ctx.fail("oracle", key, f"{type(e).__name__} in scenario {spec['scenario']}: {str(e)[:200]}", witness=spec,
+                     snippet=INV_SRC + f"\nspec = json.loads({json.dumps(json.dumps(spec))})\ninv_run(spec)\n")
+            obs.append({"key": key, "error": type(e).__name__, "wall_s": round(time.time() - t0, 2)})
+            continue
+        worst = max(((o / t if t > 0 else (0.0 if o <= t else float("inf"))) for _, o, t in res), default=0.0)
+        obs.append({"key": key, "scenario": spec["scenario"], "checks": len(res), "worst_observed_over_threshold": worst, "wall_s": round(time.time() - t0, 2)})
+        ctx.tagc("oracle:" + key, len(res))
+        ctx.count(["inv", spec["scenario"], spec["seed"]], nontrivial=True, tag="oracle-scenario:" + spec["scenario"], n=len(res))
+        for label, o, t in res:
+            if not (o <= t):
+                ctx.fail("oracle", key, f"{spec['scenario']}: {label}: {o:.3e} exceeds {t:.3e}", witness={**spec, "check": label, "observed": o, "threshold": t},
+                         snippet=_inv_snippet(spec, label))
+
+
+def _run_cases(ctx: Ctx, cases, obs):
+    for key, spec in cases:
+        t0 = time.time()
+        try:
+            got, thr, what = _run(spec)
+        except Exception as e:  # the library raised inside the envelope
+            ctx.fail("oracle", key, f"{type(e).__name__} inside the envelope: {str(e)[:160]}", witness=spec, snippet=_snippet(spec))
+            obs.append({"key": key, "error": type(e).__name__, "wall_s": round(time.time() - t0, 2)})
+            continue
+        obs.append({"key": key, "observed": got, "threshold": thr, "wall_s": round(time.time() - t0, 2)})
+        ctx.tagc("oracle:" + key)
+        if not (got <= thr):
+            ctx.fail("oracle", key, f"{what}: {got:.3e} exceeds {thr:.3e}", witness={**spec, "observed": got, "threshold": thr}, snippet=_snippet(spec))
+
+
+def oracle_at(ctx: Ctx, failure):
+    """A correspondence disagreement (wrong coefficient / right-hand side / boundary data / mesh / slice / Laplacian term /
+    option) names the configuration; evaluate the property itself there with the large budget: the accuracy cases of that
+    solver and route (atomic / molecular) and the invariance scenarios that exercise the same code."""
+    key = failure.key or ""
+    obs = ctx.extra.setdefault("oracle_at_observed", [])
+    done = ctx.extra.setdefault("oracle_at_done", [])
+    if key.startswith("poisson.interpolate_laplacian"):
+        want, inv = ["poisson.interpolate_laplacian"], ["grid", "dtype", "mol"]
+    elif key.startswith("poisson.solve_poisson_ivp"):
+        want, inv = ["poisson.solve_poisson_ivp"], ["funcvals", "params", "grid", "dtype"]
+    elif key.startswith("robust_poisson"):
+        want, inv = ["robust_poisson"], ["funcvals", "dtype"]
+    elif key.startswith("poisson.solve_poisson_bvp") or key.startswith("poisson:"):
+        mol = ":molecular" in key or key.endswith((":slices", ":sum", ":atoms"))
+        want = ["poisson.solve_poisson_bvp:molecular"] if mol else ["poisson.solve_poisson_bvp"]
+        inv = ["mol"] if mol else ["funcvals", "params", "grid", "extreme"]
+        if key.endswith((":options", ":bd_cond", ":mesh", ":defaults")):
+            inv = ["params", "extreme", "grid"]
+    else:
+        return
+    tagk = [want, inv]
+    if tagk in done:
+        return
+    done.append(tagk)
+    cases = [(k, sp) for k, sp in _cases(ctx, "large") if any(k.startswith(w) for w in want) and k != "poisson.solve_poisson_ivp:high-l"]
+    # cheapest first, bounded
+    _run_cases(ctx, cases[:ctx.n(24, 60)], obs)
+    _run_inv_cases(ctx, _inv_cases(ctx, "small", only=inv), obs)
+
+
 def oracle(ctx: Ctx, budget: str):
     obs = ctx.extra.setdefault("oracle_observed", [])
     t_all = time.time()
+    _run_inv_cases(ctx, _inv_cases(ctx, budget), obs)
     for key, spec in _cases(ctx, budget):
         t0 = time.time()
         try:
